@@ -181,6 +181,14 @@ def run(chk: core.Check):
     for i in range(24 if quick else 400):
         cfg, mode = gen_cfg(r, i)
         check_run(chk, cfg, mode, lines, keep)
+    # a numeric regime of its own: the proposal is (almost) exactly the posterior, so every incremental weight is the same to a relative
+    # spread of 1e-5 .. 1e-7 and the run is one jump 0 -> 1; the per-step variance is then tiny, and it is still the variance of THESE weights
+    # (to the accuracy a two-pass variance has: eps / spread)
+    for j, rel in enumerate((3e-6, 1e-6, 3e-7, 1e-7) if quick else (1e-5, 3e-6, 1e-6, 3e-7, 1e-7, 3e-8)):
+        for nsn in ("numpy", "torch", "jax")[: 1 if quick and j % 2 else 3]:
+            cfg = {"seed": 900 + j, "dims": 2, "n_samples": 32, "kernel_steps": 1, "like_center": 0.5, "like_width": 0.7, "half": 10.0,
+                   "prop_mu": 0.5, "prop_sigma": 0.7 * (1 + rel), "ns": nsn, "width": "f64"}
+            check_run(chk, cfg, "near_exact_proposal", lines, keep)
     reps = drv.batch(lines)
     for (case, t, ratio, var, ess, scale), rep in zip(keep, reps):
         if not rep.ok:
